@@ -5,6 +5,7 @@ import (
 	"encoding/json"
 	"fmt"
 	"runtime"
+	"strings"
 	"sync"
 	"time"
 
@@ -272,6 +273,12 @@ func runLatch(c *corr.Ctx) error {
 			c.Count("conc.overlap_or_few_stripes")
 		}
 		c.Emit(cs)
+		if strings.HasSuffix(cs.Coq, "false") {
+			// a request never completed (deadlock): the case is a violation; the blocked
+			// goroutines are leaked, so stop here instead of waiting 20 s per further case
+			c.Count("conc.incomplete")
+			break
+		}
 	}
 	return nil
 }
